@@ -304,7 +304,8 @@ class PageXMLTableRegion(PageXMLDoc):
     def cell(self, row: int, cell: int):
         return self.rows[row].cells[cell]
 
-    def get_lines(self):
+    def get_lines(self, ignore_reading_order: bool = False):
+        # same signature as the text regions, so that a page can treat all its regions alike
         return [line for row in self.rows for line in row.get_lines()]
 
     def get_words(self):
